@@ -77,3 +77,16 @@ def extract_method_loop_body(func, iter_text, occurrence, name, params, returns,
     body = "\n".join(textwrap.indent(ast.unparse(st), "    ") for st in lp.body)
     src = "def %s(%s):\n%s\n    return %s\n" % (name, ", ".join(params), body, ", ".join(returns))
     return src, ast.unparse(lp.target), lp.lineno
+
+
+def extract_method_body(func, name, params, returns):
+    """the whole body of a method as a stand-alone function: `self.x` becomes the parameter / local `x` (leading underscores dropped), the docstring is dropped,
+    and the listed names are returned at the end (a method that stores its results in attributes of self)"""
+    f = getattr(func, "py_func", func)
+    fd = ast.parse(textwrap.dedent(inspect.getsource(f))).body[0]
+    fd = _SelfToNames().visit(fd)
+    ast.fix_missing_locations(fd)
+    stmts = [st for st in fd.body if not (isinstance(st, ast.Expr) and isinstance(st.value, ast.Constant))]
+    body = "\n".join(textwrap.indent(ast.unparse(st), "    ") for st in stmts)
+    src = "def %s(%s):\n%s\n    return %s\n" % (name, ", ".join(params), body, ", ".join(returns))
+    return src, "", fd.lineno
